@@ -128,12 +128,12 @@ func (k *Keeper) createFunTokenFromERC20(
 
 	// 2 | Get existing ERC20 metadata
 	// We use dummy values for the tx config and evm config because we aren't in an actual end user transaction, it's just a state query.
-	stateDB := k.Bank.StateDB
+	stateDB := k.Bank.TxStateDB(ctx)
 	if stateDB == nil {
 		stateDB = k.NewStateDB(ctx, statedb.NewEmptyTxConfig(gethcommon.BytesToHash(ctx.HeaderHash())))
 	}
 	defer func() {
-		k.Bank.StateDB = nil
+		k.Bank.ClearTxStateDB(ctx)
 	}()
 	evmMsg := gethcore.NewMessage(
 		evm.EVM_MODULE_ADDRESS,
